@@ -1,6 +1,7 @@
 package main
 
 import (
+	"go/token"
 	"fmt"
 	"sort"
 	"strings"
@@ -14,7 +15,7 @@ func init() {
 		Decides: "the lock discipline that linearizability of these types rests on, not linearizability itself: " +
 			"(R32.1) in every method of Locked, SingleLockedMap and ShardedMap the guarded state (value/isempty, m, sharded) is read with the type's RWMutex held at least shared and written (stored, map-updated, deleted from, cleared, slot-assigned) with it held exclusively; user callbacks run with the lock held; ShardedMap.length is touched only through sync/atomic; " +
 			"(R32.2) the length bookkeeping follows the shard's own answer: +1 only where the shard reported added/created, -1 only where it reported removed, never on an error; " +
-			"(R32.3) value and emptiness / presence change together: Locked stores value and isempty at the same places and only on the callback's success; a locked map writes an entry only on the callback's success and deletes only a found key; (R32.4) ShardedMap.Len() is the sum of its shards' counts taken with the map lock held — or, if a key counter is kept, no update of it can be overtaken by the reset in Empty/Close (updates happen with the map lock held).",
+			"(R32.3) value and emptiness / presence change together: Locked stores value and isempty at the same places and only on the callback's success; a locked map writes an entry only on the callback's success and deletes only a found key; (R32.4) ShardedMap.Len() is the sum of its shards' counts taken with the map lock held — or, if a key counter is kept, no update of it can be overtaken by the reset in Empty/Close (updates happen with the map lock held). A shard slot is tested and filled in one exclusive critical section; a locked map deletes a key only if the callback succeeded; Close/Empty reach every shard with the map lock held exclusively.",
 		NotDecided: "linearizability of histories; fairness.",
 		Run:        runC32,
 	})
@@ -331,6 +332,18 @@ func runC32(c *Ctx) {
 				}
 			}
 			c.MP(fn, "map "+m+": only a found key is deleted", dels, 1, GTrue("l.m[k]#1"))
+			// a callback that failed changes nothing: the delete lies behind the callback's nil error (the
+			// ignore sentinel is an error too; RemoveValue has no callback)
+			for _, cb := range c.CallsD(fn, "call(f)(*)") {
+				d := c.D(cb.(ssa.Value))
+				sig := callCommon(cb).Signature().Results()
+				errIdx := sig.Len() - 1
+				g := GNil(fmt.Sprintf("%s#%d", globEscape(d), errIdx))
+				if sig.Len() == 1 {
+					g = GNil(globEscape(d))
+				}
+				c.MPFrom(fn, cb, "map "+m+": a key is deleted only if the callback succeeded", dels, 0, g)
+			}
 		}
 	}
 	if fn := c.Need(SM + "SetOrRemove"); fn != nil {
@@ -343,6 +356,38 @@ func runC32(c *Ctx) {
 		c.Held(fn, nil, "newItem: a shard is created under the exclusive lock", c.CallsD(fn, "call(l.newMap)()"), 1, "&l.l", LW)
 		c.MP(fn, "newItem: a shard is created only for an empty slot", c.CallsD(fn, "call(l.newMap)()"), 1, GNil("l.sharded[call(l.hashf)(k)#0]"))
 		c.MP(fn, "newItem: no shard is created in a closed map", c.CallsD(fn, "call(l.newMap)()"), 1, GCmp("len(l.sharded)", ">=", "1"))
+		// test and creation are one exclusive critical section: the slot whose emptiness decides the
+		// creation is read with the lock held exclusively, and the lock is not released in between (two
+		// callers that both saw the empty slot under a read lock would each create a shard; one is lost)
+		st := c.LockStates(fn, nil)
+		for _, mk := range c.CallsD(fn, "call(l.newMap)()") {
+			for _, in := range allInstrs(fn) {
+				u, ok := in.(*ssa.UnOp)
+				if !ok || u.Op != token.MUL {
+					continue
+				}
+				ia, isIA := u.X.(*ssa.IndexAddr)
+				if !isIA || c.D(ia.X) != "l.sharded" {
+					continue
+				}
+				if !reach(fn, in, nil).reached[mk] {
+					continue
+				}
+				held := st[in]["&l.l"] >= LW
+				// no unlock between the read and the creation
+				cut := NewCut()
+				for _, x := range allInstrs(fn) {
+					if cc := callCommon(x); cc != nil && strings.HasSuffix(CalleeFullName(cc), "nlock") && len(cc.Args) > 0 && c.D(cc.Args[0]) == "&l.l" {
+						if _, isDefer := x.(*ssa.Defer); !isDefer {
+							cut.Barriers[x] = true
+						}
+					}
+				}
+				same := reach(fn, in, cut).reached[mk]
+				c.Report(fn, "newItem: the slot is tested and filled in one exclusive critical section", c.InstrPos(in), held && same,
+					fmt.Sprintf("slot read with the lock held exclusively: %v; no unlock between the read and the creation: %v", held, same))
+			}
+		}
 	}
 	if fn := c.Need(SH + "loadItem"); fn != nil {
 		c.MP(fn, "loadItem: a closed map has no shards", nonMatchingReturns(c, fn, 0, "nil"), 1, GCmp("len(l.sharded)", ">=", "1"))
